@@ -1134,6 +1134,15 @@ class ModelBuilder:
 
                 target_task = self._resolve_task_reference(project, source_task, prec_ref)
                 if target_task:
+                    # The inverted dependency keeps the options written on the 'precedes' item
+                    new_dep: Any = source_task
+                    if isinstance(prec_item, dict):
+                        options = {
+                            key: prec_item.get(key)
+                            for key in ("gapduration", "gaplength", "maxgapduration", "onstart", "onend")
+                        }
+                        if any(options.values()):
+                            new_dep = {"task": source_task, **options}
                     # Add source_task as a dependency of target_task
                     for scIdx in range(project.scenarioCount()):
                         existing_deps = target_task.get("depends", scIdx) or []
@@ -1146,8 +1155,8 @@ class ModelBuilder:
                             if dep_task is source_task:
                                 already_exists = True
                                 break
-                        if not already_exists:
-                            existing_deps.append(source_task)
+                        if not already_exists or isinstance(new_dep, dict):
+                            existing_deps.append(dict(new_dep) if isinstance(new_dep, dict) else new_dep)
                             target_task[("depends", scIdx)] = existing_deps
 
     def _resolve_task_reference(self, project: Project, from_task: Task, ref: str) -> Optional[Task]:
